@@ -23,7 +23,7 @@ ASSUMPTIONS = [
     "Kaiser reference: np.kaiser(L+1, pi*alpha(psll))[:-1] with the harness's own alpha(psll) cubic",
     "cuda backend through NUMBA_ENABLE_CUDASIM=1 (small N only)",
 ]
-DECIDING_COUNTERS = ["bins_compared", "single_bin_compared", "band_pairs"]  # probe events: evidence only
+DECIDING_COUNTERS = ["bins_compared", "single_bin_compared", "band_pairs", "custom_plan_results"]  # probe events: evidence only
 MIN_NONTRIVIAL = {"quick": 120, "thorough": 1500}
 JOBS = {"quick": 10, "thorough": 16}
 
@@ -260,7 +260,63 @@ def one_analysis(rec, seedt, params, vary_from=None):
         api.check_result(r1, data, desc, rec, f"single[{desc['backend']}]")
 
 
+def custom_plan_case(rec, seedt):
+    """scheduler=<callable>: a user-supplied plan with segment lengths down to 1, arbitrary
+    (fractional-bin) frequencies in any order, K=1 bins with L<N, irregular starts.  Every bin of
+    the result must still be the reference estimator applied to that plan."""
+    from speckit.analysis import SpectrumAnalyzer
+    rng = gen.rng_for(*seedt)
+    N = int(rng.integers(40, 3000))
+    fs = float(rng.choice([1.0, 48.0]))
+    nf = int(rng.integers(3, 25))
+    Ls = [int(v) for v in rng.choice([1, 1, 2, 3, 4, 7, 16, 33, 64, 100, 257, 1024, 1025, N],
+                                     size=nf)]
+    Ls = [min(L, N) for L in Ls]
+    plan = {"f": [], "r": [], "b": [], "L": [], "K": [], "navg": [], "D": [], "O": []}
+    for L in Ls:
+        K = int(rng.choice([1, 1, 2, 3, 9, 40]))
+        K = min(K, N - L + 1)
+        kind = str(rng.choice(["sorted", "even", "repeated", "unsorted"]))
+        if kind == "even" and K > 1:
+            d = np.round(np.arange(K) * ((N - L) / (K - 1))).astype(np.int64)
+        elif kind == "repeated":
+            d = np.full(K, int(rng.integers(0, N - L + 1)), dtype=np.int64)
+        else:
+            d = rng.integers(0, N - L + 1, size=K).astype(np.int64)
+            if kind == "sorted":
+                d = np.sort(d)
+        f = float(rng.uniform(0, fs / 2))
+        plan["f"].append(f); plan["r"].append(fs / L); plan["b"].append(f * L / fs)
+        plan["L"].append(L); plan["K"].append(K); plan["navg"].append(K); plan["D"].append(d)
+        plan["O"].append(0.0)
+    plan["nf"] = nf
+
+    def my_scheduler(**kwargs):
+        return {k: (list(v) if isinstance(v, list) else v) for k, v in plan.items()}
+
+    desc = api.random_analysis(rng, nmax=N, nmin=N, backends=("numba", "numpy", "auto"))
+    desc.update(kind="custom-plan", seed=list(seedt), N=N, fs=fs, Lmin=1, band=None,
+                sched="custom", Ls=Ls[:10])
+    rec.case(desc, nontrivial=True)
+    data = api.build_data(desc, seedt)
+    kw = api.analyzer_kwargs(desc)
+    kw["scheduler"] = my_scheduler
+    res = api.attempt(rec, lambda: SpectrumAnalyzer(data, fs, **kw).compute(),
+                      "compute() with a user-supplied scheduler")
+    if res is None:
+        return
+    rec.count("custom_plan_results")
+    if res.nf != nf or not np.array_equal(np.asarray(res.L), np.asarray(Ls)):
+        rec.violation("custom-plan-not-honoured", "the result does not report the plan the "
+                                                  "user-supplied scheduler returned")
+        return
+    api.check_result(res, data, desc, rec, f"custom-plan[{desc['backend']}]")
+
+
 def run_shard(params, rec):
+    if not params.get("cuda"):
+        for i in range(max(2, params["n"] // 4)):
+            custom_plan_case(rec, [params["seed"], params["shard"], "custom", i])
     if params.get("cuda"):
         from speckit import core
         if not core._CUDA_ENABLED:
@@ -276,6 +332,8 @@ def run_shard(params, rec):
 
 
 def replay(case, rec):
+    if case.get("kind") == "custom-plan":
+        return custom_plan_case(rec, case["seed"])
     if case.get("vary_of"):
         # reproduce the history: the analysis this one was derived from runs first
         one_analysis.last = None
